@@ -22,8 +22,8 @@ def predictable(v):
     if isinstance(v, Sc):
         return v.dep == "const", str(v) + (f" [{v.why}]" if v.why else "")
     if isinstance(v, Arr):
-        ok = v.lag <= -1 and v.last is None
-        return ok, str(v) + (f" [{v.why}]" if v.why and not ok else "")
+        ok = v.lag <= -1 and v.last is None and v.first is None
+        return ok, str(v) + (f" [{v.why}]" if v.why and not ok else "") + (f" [{v.first.why}]" if v.first is not None and getattr(v.first, "why", "") else "")
     return False, str(v)
 
 
